@@ -216,7 +216,9 @@ class Frame:
         :
             Chopped frame.
         """
-        distance = chopper.distance.to(unit=self.distance.unit, copy=False)
+        distance = chopper.distance.to(
+            unit=self.distance.unit, dtype='float64', copy=False
+        )
         if distance < self.distance:
             raise ValueError(
                 f'Chopper distance {distance} is smaller than frame distance '
